@@ -6,6 +6,10 @@ mod c04;
 mod c05;
 mod c06;
 mod c07;
+mod c11;
+mod c12;
+mod modgen;
+mod refgraph;
 mod gram;
 mod util;
 mod c03;
@@ -33,6 +37,8 @@ fn main() {
                 "C05" => c05::run(&args, &mut rec),
                 "C06" => c06::run(&args, &mut rec),
                 "C07" => c07::run(&args, &mut rec),
+                "C11" => c11::run(&args, &mut rec),
+                "C12" => c12::run(&args, &mut rec),
                 "C13" => c13::run(&args, &mut rec),
                 "smoke" => smoke::run(&args, &mut rec),
                 "load" => {
